@@ -50,8 +50,11 @@ pub fn verif_msg_or_empty(o: &Option<String>) -> (r: String)
 { unimplemented!() }
 
 // stands for `msg.as_ref().map_or("".to_string(), |s| s.replace('\n', ";"))` (text normalised: opaque, R1)
+pub uninterp spec fn one_line(o: Option<String>) -> Seq<char>;
 #[verifier::external_body]
-pub fn verif_msg_one_line(o: &Option<String>) -> (r: String) { unimplemented!() }
+pub fn verif_msg_one_line(o: &Option<String>) -> (r: String)
+    ensures r@ == one_line(*o),
+{ unimplemented!() }
 
 // stands for `message.as_ref().map_or("".to_string(), |s| format!(..))` (diagnostic text: opaque, R1)
 #[verifier::external_body]
